@@ -173,6 +173,9 @@ def judge(mod, prop, a, specs, outs, wall):
         os.replace(p + ".tmp", p)
     for ln in lines:
         print(ln)
+    if floors:
+        kmin = min(floors, key=lambda k: hits.get(k, 0) / float(floors[k]))
+        print("  floors: %d monitors with a minimum hit count; smallest margin %.2fx (%s: %d hits, floor %d)" % (len(floors), hits.get(kmin, 0) / float(floors[kmin]), kmin, hits.get(kmin, 0), floors[kmin]))
     print("%s %s tier=%s seed=%d: %s; %d executions judged, %d distinct non-trivial, %d shards, %.1fs" % (
         "CHECK", prop, a.tier, a.seed, verdict.upper(), ev, len(sigs), len(specs), wall))
     if a.replay or a.only or verdict != "held":
